@@ -132,7 +132,14 @@ def run(ctx, F):
     bcm = F.fn("policy::marksweepspace::native_ms::global::MarkSweepSpace::block_clear_metadata")
     ctx.judge(any(c.q == VO + "bzero_vo_bit" for c in live_calls(bcm)), R, "a released MS block loses all its VO bits", expected="bzero_vo_bit(block.start(), Block::BYTES)", found="missing", where=where(bcm), key=R + "|ms-release")
     lsw = F.fn("policy::largeobjectspace::LargeObjectSpace::sweep_large_pages")
-    hits = [(cl, c) for cl in closures_of(F, lsw) for c in live_calls(cl) if c.q == VO + "unset_vo_bit" and show(strip(cl.flow.arg_tree(c, 0))) == "arg2"]
+    per_obj = list(closures_of(F, lsw))
+    for g in [lsw] + list(per_obj):
+        for c in live_calls(g):
+            h = F.fns.get(c.q or "")
+            if h is not None and h.blocks and (c.q or "").startswith("policy::largeobjectspace::LargeObjectSpace::") and str(h.meta.get("vis", "")).startswith("Restricted") and h is not lsw \
+                    and h.argc == 2 and g.cfg.must_pass([c.bb]) and h not in per_obj:
+                per_obj.append(h)  # a private per-object method called for every swept object
+    hits = [(cl, c) for cl in per_obj for c in live_calls(cl) if c.q == VO + "unset_vo_bit" and show(strip(cl.flow.arg_tree(c, 0))) == "arg2"]
     ctx.judge(len(hits) == 1 and hits[0][0].cfg.must_pass([hits[0][1].bb]), R, "LOS clears the VO bit of every swept object", expected="unset_vo_bit(object) on every path of the per-object sweep closure", found=str(len(hits)),
               where=where(lsw), key=R + "|los")
     uv = [c for c in live_calls(mc) if c.q == VO + "unset_vo_bit"]
